@@ -28,6 +28,7 @@ from typing import TYPE_CHECKING
 from igraph import Vertex
 
 from explorerscript.ssb_converting.decompiler.write_handlers.abstract import AbstractWriteHandler, FallbackToJump
+from explorerscript.ssb_converting.ssb_special_ops import OP_JUMP
 
 if TYPE_CHECKING:
     from explorerscript.ssb_converting.ssb_decompiler import ExplorerScriptSsbDecompiler
@@ -46,7 +47,8 @@ class ForeverBreakWriteHandler(AbstractWriteHandler):
     def write_content(self) -> Vertex | None:
         """Print a break and end"""
         logger.debug("Handling a break_loop; (%s)...", self.start_vertex["op"])
-        self.decompiler.source_map_add_opcode(self.start_vertex["op"].offset)
+        if self._is_statement_for_jump():
+            self.decompiler.source_map_add_opcode(self.start_vertex["op"].offset)
         self.decompiler.write_stmnt("break_loop;")
         exits = self.start_vertex.out_edges()
         if len(exits) == 1:
@@ -60,3 +62,11 @@ class ForeverBreakWriteHandler(AbstractWriteHandler):
             self.decompiler.forever_start_handler_stack[-1].set_vertex_after(exits[0].target_vertex)
             return None
         raise ValueError("After a break_loop there must be exactly 1 immediate opcode.")
+
+    def _is_statement_for_jump(self) -> bool:
+        """
+        Whether this statement is written for a jump operation. If not, it was inserted for an edge of another
+        operation (a branch...), which has it's own statement and source map entry.
+        """
+        op = self.start_vertex["op"]
+        return op.maybe_root is not None and op.root.op_code.name == OP_JUMP
